@@ -520,8 +520,9 @@ def parts(tier):
     return [
         Part('two-waiters', make_two_waiters_harness(max_callee_steps=6, max_ticks=30), bounds={'T': '[-1,3] (z3 Int)', 'callee_yields': '0..6', 'waiters': 'one with timeout T, one without, on the same event'},
              encoded=ENC, budget_s=600),
-        Part('programs', make_harness(steps_a=3, steps_b=2, steps_c=2), bounds={'steps_A': 3, 'steps_B': 2, 'steps_C': 2, 'roots': 1}, encoded=ENC, budget_s=1200),
-        Part('two-roots', make_harness(steps_a=2, steps_b=1, steps_c=1, roots=2), bounds={'steps_A': 2, 'steps_B': 1, 'steps_C': 1, 'roots': 2}, encoded=ENC, budget_s=1200),
+        Part('programs', make_harness(steps_a=3, steps_b=1, steps_c=1), bounds={'steps_A': 3, 'steps_B': 1, 'steps_C': 1, 'roots': 1}, encoded=ENC, budget_s=1200),
+        Part('programs-deep', make_harness(steps_a=2, steps_b=2, steps_c=1), bounds={'steps_A': 2, 'steps_B': 2, 'steps_C': 1, 'roots': 1}, encoded=ENC, budget_s=1200),
+        Part('two-roots', make_harness(steps_a=1, steps_b=2, steps_c=1, roots=2), bounds={'steps_A': 1, 'steps_B': 2, 'steps_C': 1, 'roots': 2}, encoded=ENC, budget_s=1200),
         Part('timeout', make_timeout_harness(max_callee_steps=6, max_ticks=24), bounds={'T': '[-1,3] (z3 Int)', 'callee_yields': '0..6'},
              encoded=[M.Manager.waitEvent, M.Manager.processTask, M.Manager.tick], budget_s=600),
     ]
